@@ -467,6 +467,8 @@ pub fn awkward_source(rng: &mut Rng, text: &str) -> String {
 
 /// produce an object in slot `o`: assembled (with/without debug, with externals) or linked; returns the replay prelude
 pub fn make_object(out: &mut Out, ex: &mut Exec, rng: &mut Rng, i: u64) -> Option<(String, &'static str)> {
+    // every third object uses label / external names with non-ASCII letters (name lengths in bytes vs characters differ)
+    NON_ASCII_LABELS.with(|c| c.set(i % 3 == 2));
     match i % 4 {
         0 | 1 => { let stmts = gen_single(rng, 20, true); let t0 = render(rng, &stmts); let text = awkward_source(rng, &t0); let dbg = if i % 4 == 0 { 1 } else { rng.below(2) };
             let l = format!("asm o {dbg} {}", hx(&text)); let r = run(out, ex, &l); if !r.starts_with("ok ") { out.fail(out.lines, format!("well-formed program rejected: {r} :: {text:?}"), l); return None; } Some((l + "\n", if dbg == 1 { "assembled_debug" } else { "assembled_plain" })) }
